@@ -406,6 +406,9 @@ func runC03(env *core.Env) {
 				}
 			}
 			for _, ns := range expand(w, fr[i], use) {
+				if !env.TimeLeft() {
+					break // the level is then reported as not completed (exhaustive=false) below
+				}
 				k := key(ns.Store)
 				mu.Lock()
 				dup := seen[k]
